@@ -46,7 +46,7 @@ pub mod verif_hooks {
     pub fn next_var_name(id_inc: usize) -> (String, usize) {
         crate::proc_gen::verif_next_var_name(id_inc)
     }
-    pub use crate::parse::{verif_convert_scopes, verif_parse_expr, verif_parse_value};
+    pub use crate::parse::{verif_convert_scopes, verif_parse_expr, verif_parse_value, verif_positions};
     pub use crate::binding_map::verif_run_collector;
     pub use crate::proc_gen::verif::{proc_gen_expr, VerifScope};
     pub fn entities_decode(s: &str) -> Option<String> {
